@@ -42,7 +42,29 @@ type c37Case struct {
 	B     params `json:"b"`
 }
 
-var strPool = []string{"", "a", "b", "a/b", "ab"}
+// strPool: generic strings plus near-duplicates that only differ in a part a careless comparison could drop
+// (transport-type prefix before '|', port, case, surrounding whitespace, trailing / leading separator)
+var strPool = []string{"", "a", "b", "a/b", "ab", "udp|10.0.0.1:4000", "ws|10.0.0.1:4000", "udp|10.0.0.1:4001", "10.0.0.1:4000", "|10.0.0.1:4000", "A", "a ", " a", "a/", "/a", "a/b/", "a//b"}
+
+var nStr = len(strPool)
+
+// strGroups: indexes of pool strings that are near-duplicates of each other
+var strGroups = [][]int{{5, 6, 7, 8, 9}, {1, 10, 11, 12, 13, 14}, {3, 15, 16}}
+
+// otherStr draws a pool index different from i; half of the time a near-duplicate of pool[i] if there is one.
+func otherStr(t *rapid.T, i int) int {
+	for _, g := range strGroups {
+		for _, x := range g {
+			if x == i && rapid.Bool().Draw(t, "near") {
+				j := g[rapid.IntRange(0, len(g)-1).Draw(t, "nearidx")]
+				if j != i {
+					return j
+				}
+			}
+		}
+	}
+	return (i + 1 + rapid.IntRange(0, nStr-2).Draw(t, "d")) % nStr
+}
 
 func pstr(i int) string { return strPool[i%len(strPool)] }
 func ppeer(i int) peer.ID {
@@ -180,9 +202,12 @@ func dtypeByName(n string) *dtype {
 	return nil
 }
 
+// strIdx: pool indexes, the transport-address group twice as likely
+var strIdx = rapid.OneOf(rapid.IntRange(0, nStr-1), rapid.IntRange(0, nStr-1), rapid.IntRange(5, 9))
+
 func genParams(t *rapid.T, l string) params {
 	return params{
-		S1: rapid.IntRange(0, 4).Draw(t, l+"s1"), S2: rapid.IntRange(0, 4).Draw(t, l+"s2"),
+		S1: strIdx.Draw(t, l+"s1"), S2: strIdx.Draw(t, l+"s2"),
 		P1: rapid.IntRange(0, 3).Draw(t, l+"p1"), P2: rapid.IntRange(0, 3).Draw(t, l+"p2"),
 		N: rapid.IntRange(0, 2).Draw(t, l+"n"), B: rapid.IntRange(0, 1).Draw(t, l+"b"),
 	}
@@ -202,9 +227,9 @@ func genC37(t *rapid.T) c37Case {
 	case 1, 2, 3, 4: // exactly one field differs
 		switch rapid.IntRange(0, 5).Draw(t, "field") {
 		case 0:
-			c.B.S1 = (c.A.S1 + 1 + rapid.IntRange(0, 3).Draw(t, "d")) % 5
+			c.B.S1 = otherStr(t, c.A.S1)
 		case 1:
-			c.B.S2 = (c.A.S2 + 1 + rapid.IntRange(0, 3).Draw(t, "d")) % 5
+			c.B.S2 = otherStr(t, c.A.S2)
 		case 2:
 			c.B.P1 = (c.A.P1 + 1 + rapid.IntRange(0, 2).Draw(t, "d")) % 4
 		case 3:
